@@ -4,6 +4,7 @@ View == core
 MC_ChanSeqs == {<<"1a">>, <<"1b">>, <<"2a">>, <<"1a", "1b">>, <<"1a", "2a">>}
 MC_ChanSeqsQuick == {<<"1a">>, <<"1b">>, <<"2a">>, <<"1a", "1b">>}
 MC_ChanSeqsBurst == {<<"1a">>, <<"1a", "1b">>}
+MC_ChanSeqsOne == {<<"1a">>}
 Tick == UNCHANGED core /\ obs' = [a |-> "tick"]
 \* one worker: the source state is printed once, then one line per transition
 NextP == /\ (Next \/ Tick)
